@@ -361,6 +361,87 @@ theorem custom_composes (p : KProg) (hwf : BuildAlg.WF p.erase) (b : BuildAlg.Bu
   obtain ⟨h1, h2⟩ := C04.emitted_once p.erase hwf b tr h n hna
   exact ⟨h1, h2, fun c hc' => C04.least_enclosing p.erase hwf b tr h (.node n) c hc'⟩
 
+/-! ## the declared types are what the Vars report and what the built graph carries -/
+
+section carried
+variable {T V : Type}
+
+/-- `Node.inference` on the fresh output Vars works key by key -/
+theorem inference_pointwise (check : T → V → Bool) (thook : List (String × T)) (vhook : List (String × V))
+    (keys : List String) :
+    (inference check thook vhook (freshOuts keys)).1 = keys.map (outAfter check thook vhook) := by
+  simp [inference, freshOuts, outAfter, List.map_map, Function.comp]
+
+/-- **declared_type_reported.** The type an output Var of a user-defined operator reports is exactly
+    the type hook's entry for its key — `none` (untyped) when the hook has no entry or is absent. -/
+theorem declared_type_reported (check : T → V → Bool) (thook : List (String × T))
+    (vhook : List (String × V)) (k : String) :
+    (outAfter check thook vhook k).type = lookup thook k ∧ (outAfter check thook vhook k).key = k := by
+  unfold outAfter mergeType mergeValue
+  cases h1 : lookup thook k <;> cases h2 : lookup vhook k <;> simp <;> (try (split <;> simp_all))
+
+/-- **declared_types_carried.** Request any outputs of a user-defined operator as results
+    (`req`: result name, output key). If `Graph.to_onnx` produces the result infos at all, then they
+    are, in order, each requested name with *exactly the type the hook declared for that key*; in
+    particular every requested output had a hook entry (and a concrete one when `concrete=True`). -/
+theorem declared_types_carried (check : T → V → Bool) (thook : List (String × T))
+    (vhook : List (String × V)) (conc : T → Bool) (rc : Bool) (req : List (String × String))
+    (infos : List (String × T))
+    (h : resultInfo conc rc (req.map fun p => (p.1, outAfter check thook vhook p.2)) = .ok infos) :
+    infos.map (fun i => (i.1, some i.2)) = req.map (fun p => (p.1, lookup thook p.2)) ∧
+    (rc = true → ∀ i ∈ infos, conc i.2 = true) := by
+  induction req generalizing infos with
+  | nil => simp [resultInfo] at h; subst h; simp
+  | cons p rest ih =>
+    simp only [List.map_cons, resultInfo, (declared_type_reported check thook vhook p.2).1] at h
+    cases hl : lookup thook p.2 with
+    | none => rw [hl] at h; simp at h
+    | some t =>
+      rw [hl] at h
+      simp only at h
+      by_cases hc : (rc && !conc t) = true
+      · simp [hc] at h
+      · simp only [hc, Bool.false_eq_true, if_false] at h
+        cases hr : resultInfo conc rc (rest.map fun p => (p.1, outAfter check thook vhook p.2)) with
+        | error e => rw [hr] at h; simp at h
+        | ok l =>
+          rw [hr] at h
+          simp only [Except.ok.injEq] at h
+          subst h
+          obtain ⟨ih1, ih2⟩ := ih l hr
+          refine ⟨by simp [ih1, hl], fun hrc i hi => ?_⟩
+          rcases List.mem_cons.mp hi with rfl | hi
+          · simpa [hrc] using hc
+          · exact ih2 hrc i hi
+
+/-- **untyped_result_refused.** An output without hook entry cannot be made a result: the build
+    raises (it is never written out with an invented type). -/
+theorem untyped_result_refused (check : T → V → Bool) (thook : List (String × T))
+    (vhook : List (String × V)) (conc : T → Bool) (rc : Bool) (req : List (String × String))
+    (p : String × String) (hp : p ∈ req) (hn : lookup thook p.2 = none) :
+    ∀ infos, resultInfo conc rc (req.map fun p => (p.1, outAfter check thook vhook p.2)) ≠ .ok infos := by
+  intro infos h
+  have h1 := (declared_types_carried check thook vhook conc rc req infos h).1
+  have : (p.1, lookup thook p.2) ∈ req.map (fun p => (p.1, lookup thook p.2)) :=
+    List.mem_map.mpr ⟨p, hp, rfl⟩
+  rw [← h1, hn] at this
+  simp at this
+
+example : (match resultInfo (fun (t : String) => t != "f32[?]") true
+      [("r0", outAfter (fun _ (_ : Nat) => true) [("Y", "f32[2]")] [] "Y")] with
+    | .ok l => l == [("r0", "f32[2]")]
+    | .error _ => false) = true := by decide
+example : (match resultInfo (fun (t : String) => t != "f32[?]") true
+      [("r0", outAfter (fun _ (_ : Nat) => true) [("Y", "f32[2]")] [] "Z")] with
+    | .ok _ => false
+    | .error e => e == ResErr.untyped "r0") = true := by decide
+example : (match resultInfo (fun (t : String) => t != "f32[?]") true
+      [("r0", outAfter (fun _ (_ : Nat) => true) [("Y", "f32[?]")] [] "Y")] with
+    | .ok _ => false
+    | .error e => e == ResErr.notConcrete "r0") = true := by decide
+
+end carried
+
 /-! ## composition, the C01 half: a user-defined operator is just another operator of the semantics
 
 `Model/Prog.lean` gives a program its meaning relative to an arbitrary operator semantics
